@@ -86,6 +86,9 @@ def _schema1(T, with_cons=True):
             obj = _OWN.setdefault(k, type(base_cls.__name__ + 'App', (base_cls,), {'typeId': base_cls.getTypeId()}))()
         elif T.get('alias') and k in ('TeletexString', 'VisibleString'):
             obj = (char.T61String if k == 'TeletexString' else char.ISO646String)()       # the library's alias classes
+        elif T.get('enc_opt'):
+            # the documented `encoding=` constructor option of the string types: the codec between text and octets
+            obj = SIMPLE_CLASS[k](encoding=T['enc_opt'])
         else:
             obj = SIMPLE_CLASS[k]()
     elif k in ir.RECORD_KINDS:
